@@ -12,7 +12,8 @@ Operations
     ["rm", name]                          gfa.rm(name)
     ["rm_i", index]                       gfa.rm(line instance)   (index into model.recs)
     ["disc", index]                       line.disconnect()
-    ["readd", index, how]                 gfa.rm(line) | line.disconnect(), then gfa.add_line(the same object)
+    ["readd", index, how[, edit]]         gfa.rm(line) | line.disconnect(), [E line: beg/end set to new intervals], then
+                                          gfa.add_line(the same object)
     ["rename", index, new]                line.name = new
     ["set_tag", index, name, type, val]   line.set_datatype + line.set (val None = delete)
 """
@@ -409,8 +410,17 @@ def gen_history(r, version, opts=None):
             if busy and gen.chance(r, 0.5):
                 i = gen.choice(r, busy)  # a segment with several kinds of dependants: they go, it returns alone
             rec = st.model.recs[i]
-            ops.append(["readd", i, gen.choice(r, ["rm", "disc"])])
+            op = ["readd", i, gen.choice(r, ["rm", "disc"])]
+            if rec.rt == "E" and gen.chance(r, 0.5):
+                # while it is out of the Gfa its intervals are edited (its kind may change)
+                n1, n2 = M.split_oriented(rec.pos[1])[0], M.split_oriented(rec.pos[2])[0]
+                b1, e1, _k = gen.interval(r, seg_len(st, n1))
+                b2, e2, _k = gen.interval(r, seg_len(st, n2))
+                op.append({"beg1": b1, "end1": e1, "beg2": b2, "end2": e2})
+            ops.append(op)
             st.model.remove(rec)
+            if len(op) > 3:
+                rec.pos[3:7] = [op[3]["beg1"], op[3]["end1"], op[3]["beg2"], op[3]["end2"]]
             st.model.add(rec)
             continue
         if x < o["p_rm"] and rem:
@@ -624,6 +634,10 @@ class Runner:
             else:
                 line.disconnect()
             self.model.remove(rec)
+            if len(op) > 3:
+                for fn in ("beg1", "end1", "beg2", "end2"):
+                    line.set(fn, op[3][fn])
+                rec.pos[3:7] = [op[3]["beg1"], op[3]["end1"], op[3]["beg2"], op[3]["end2"]]
             self.gfa.add_line(line)
             self.model.add(rec)
         elif kind == "rename":
